@@ -20,6 +20,9 @@ pub struct CaseSpec {
     pub drain: bool,
     /// C14 environment: probes never dispose and spend at most one Pull per message received
     pub credit_env: bool,
+    /// C14 only: Pulls the sink may have outstanding beyond the one-per-message credit (a sink that
+    /// asks for a few items ahead); only over operators that keep no demand state of their own
+    pub extra_credit: u32,
     /// weights for top-level actions: [puppet step, puppet greet, probe pull, probe terminate, probe error, subscribe]
     pub weights: [u32; 6],
 }
@@ -89,7 +92,7 @@ pub fn gen_probe_spec(c: &mut Chooser, allow_dispose: bool) -> ProbeSpec {
             policy.push(
                 [React::Terminate, React::Terminate, React::Error, React::PullTerminate, React::PullError][c.choose(5)],
             );
-            ProbeSpec { policy, rest: base, pull_cap: 1000, attach: None, poke: None, feed: None, only_attached: false, late_pulls: false, drop_talkback: false }
+            ProbeSpec { policy, rest: base, pull_cap: 1000, attach: None, poke: None, feed: None, only_attached: false, late_pulls: false, drop_talkback: false, late_pull_nested: false }
         },
         _ => {
             let n = 1 + c.choose(6);
@@ -115,7 +118,7 @@ pub fn gen_probe_spec(c: &mut Chooser, allow_dispose: bool) -> ProbeSpec {
                 policy.push(r);
             }
             let rest = [React::Nothing, React::Pull][c.choose(2)];
-            ProbeSpec { policy, rest, pull_cap: 1000, attach: None, poke: None, feed: None, only_attached: false, late_pulls: false, drop_talkback: false }
+            ProbeSpec { policy, rest, pull_cap: 1000, attach: None, poke: None, feed: None, only_attached: false, late_pulls: false, drop_talkback: false, late_pull_nested: false }
         },
     }
 }
@@ -228,11 +231,11 @@ fn gen_huge_merge(c: &mut Chooser) -> CaseSpec {
     let mut lens = vec![];
     let talkative: Vec<usize> = (0..4).map(|_| c.choose(n)).collect();
     for i in 0..n {
-        pspecs.push(PuppetSpec { mode: Mode::Listen, late: false, fin: Fin::Never, burst: 0, eager_end: false, per_pull: 1, on_stop: None, on_stop2: None, feedback: None, on_pull: None });
+        pspecs.push(PuppetSpec { mode: Mode::Listen, late: false, fin: Fin::Never, burst: 0, eager_end: false, per_pull: 1, on_stop: None, on_stop2: None, feedback: None, on_pull: None, backlog: false });
         lens.push(if talkative.contains(&i) { 1 + c.choose(2) } else { 0 });
     }
-    let probe = ProbeSpec { policy: vec![if c.chance(1, 2) { React::Pull } else { React::Nothing }], rest: React::Nothing, pull_cap: 4, attach: None, poke: None, feed: None, only_attached: false, late_pulls: false, drop_talkback: false };
-    CaseSpec { topo: Topo::Merge(n), pspecs, lens, probe_specs: vec![probe], max_steps: 4 + c.choose(6), drain: false, credit_env: false, weights: [8, 5, 2, 1, 1, 4] }
+    let probe = ProbeSpec { policy: vec![if c.chance(1, 2) { React::Pull } else { React::Nothing }], rest: React::Nothing, pull_cap: 4, attach: None, poke: None, feed: None, only_attached: false, late_pulls: false, drop_talkback: false, late_pull_nested: false };
+    CaseSpec { topo: Topo::Merge(n), pspecs, lens, probe_specs: vec![probe], max_steps: 4 + c.choose(6), drain: false, credit_env: false, extra_credit: 0, weights: [8, 5, 2, 1, 1, 4] }
 }
 
 pub fn gen_case_sized(c: &mut Chooser, op: &str, prop: &str, small: bool) -> CaseSpec {
@@ -600,6 +603,7 @@ pub fn gen_case_full(c: &mut Chooser, op: &str, prop: &str, small: bool, deep: b
         // are also exercised with Pulls that arrive after the end / after the disposal
         for p in probe_specs.iter_mut() {
             p.late_pulls = c.chance(1, 2);
+            p.late_pull_nested = p.late_pulls && c.chance(1, 2);
             p.pull_cap = p.pull_cap.min(40);
         }
     }
@@ -614,6 +618,25 @@ pub fn gen_case_full(c: &mut Chooser, op: &str, prop: &str, small: bool, deep: b
             p.pull_cap = p.pull_cap.min(6);
         }
     }
+    // C14 over a unary operator (or a stack of them): a sink that asks for up to three items ahead
+    // of what it has received, over a source that answers later - half of the time one that
+    // catches up with everything it owes in one go and from inside the Pulls it is sent meanwhile
+    // (round 8: `r8C14-b`, a filter that folds the re-requests for several rejected items arriving
+    // inside one of its own compensating Pulls into a single one). Not over concat! / flatten /
+    // from_iter, which remember *that* a Pull is outstanding, not how many (as the JS reference).
+    let mut extra_credit = 0;
+    let unary_only = match &topo {
+        Topo::Unary(_) => true,
+        Topo::Tree(n) => tree_unary_only(n),
+        _ => false,
+    };
+    if credit && unary_only && !small && c.chance(1, 3) {
+        extra_credit = 1 + c.choose(3) as u32;
+        for s in pspecs.iter_mut() {
+            s.mode = Mode::PullDeferred;
+            s.backlog = c.chance(2, 3);
+        }
+    }
     CaseSpec {
         topo,
         pspecs,
@@ -622,7 +645,16 @@ pub fn gen_case_full(c: &mut Chooser, op: &str, prop: &str, small: bool, deep: b
         max_steps: if small { 3 + c.choose(3) } else if wide { 40 + c.choose(260) } else if deep { 15 + c.choose(45) } else { 6 + c.choose(20) },
         drain: credit || c.chance(1, 2),
         credit_env: credit,
+        extra_credit,
         weights: if credit { [8, 5, 4, 0, 0, 4] } else { [8, 5, 4, 1, 1, 4] },
+    }
+}
+
+fn tree_unary_only(n: &Node) -> bool {
+    match n {
+        Node::Leaf => true,
+        Node::Un(_, n) => tree_unary_only(n),
+        _ => false,
     }
 }
 
@@ -668,7 +700,7 @@ pub fn enabled(b: &Built, spec: &CaseSpec) -> Vec<(Act, u32)> {
             if spec.credit_env {
                 let e = b.world.edge(p.edge());
                 // one credit per message received (greeting and each datum)
-                if e.pulls_up < e.greeted + e.data_down {
+                if e.pulls_up < e.greeted + e.data_down + spec.extra_credit {
                     v.push((Act::ProbeAct(pi, React::Pull), w[2]));
                 }
             } else {
@@ -695,7 +727,8 @@ pub fn enabled(b: &Built, spec: &CaseSpec) -> Vec<(Act, u32)> {
             if p.can_greet(k) {
                 v.push((Act::PuppetGreet(p.id(), k), w[1]));
             } else if p.can_step(k) {
-                v.push((Act::PuppetStep(p.id(), k), w[0]));
+                // a source that is busy for a while: let what it owes grow before it catches up
+                v.push((Act::PuppetStep(p.id(), k), if p.building_backlog(k) { 1 } else { w[0] }));
             }
         }
     }
